@@ -161,6 +161,9 @@ def is_recursive(
     cache, rec_key = recursion_cache(checker_cls), (tp, conversion)
     if rec_key not in cache:
         with _analysis_lock:
+            # two threads calling recursion_cache for the first time at once (lru_cache
+            # miss in both) get two different dicts and only one is kept: use the kept one
+            cache = recursion_cache(checker_cls)
             if rec_key not in cache:  # may have been filled while waiting
                 checker_cls(default_conversion).visit_with_conv(tp, conversion)
     return cache[rec_key]
